@@ -302,6 +302,15 @@ def c06IssueClauses (csr certTbs : Bytes) : List String :=
     | none, _ => ["C06:request-decodes"]
     | _, none => ["C06:issued-certificate-decodes"]
 
+/-- the key identifier a `Certificate` value reports against the one an RFC 5280 reader finds in
+    its to-be-signed bytes: wherever a subjectKeyIdentifier is present, it is that value -/
+def c02ObjectClauses (tbs : Bytes) (reportedKeyId : Bytes) : List String :=
+  match decodeTbsCert tbs with
+  | none => ["C02:decodes"]
+  | some c =>
+    clause "C02:reported-key-identifier-equals-encoded"
+      ((c.exts.filter (fun e => e.oid == oidSki)).all (fun e => e.value == .ski reportedKeyId))
+
 /-! ### CRL -/
 
 structure CrlInputs where
